@@ -387,3 +387,19 @@ Proof.
   - intros Ha. pose proof (l_exp _ _ L rid q Hg Ha) as Hm. destruct (l_mark _ _ L _ _ Hm) as (_ & Hh). exact Hh.
   - intros Ha. exact (l_log _ _ L rid q Hg Ha).
 Qed.
+
+(** ** C08: starting a paused context never moves or duplicates a scheduled batch *)
+Lemma start_keeps_schedule_lemma :
+  forall s id cons s',
+    k_start s id cons = Okk s' ->
+    (has id (expmark s) = true \/ has id (newmark s) = true -> newq s' = newq s /\ newmark s' = newmark s)
+    /\ (has id (expmark s) = false -> has id (newmark s) = false ->
+        newq s' = q_add (height s, id) (newq s) /\ newmark s' = set id (height s) (newmark s))
+    /\ expq s' = expq s /\ expmark s' = expmark s /\ reqs s' = reqs s /\ g_batches s' = g_batches s.
+Proof.
+  unfold k_start. intros s id cons s' H. destruct (get id (ctxs s)) as [x|]; [|discriminate].
+  destruct (x_mod x && negb (check_authority s cons id false)); [discriminate|].
+  destruct (negb (x_state x =? 1)); [discriminate|]. cbv zeta in H. simpl in H.
+  destruct (has id (expmark s)) eqn:E1; destruct (has id (newmark s)) eqn:E2; simpl in H; inversion H; subst; clear H; simpl;
+    (split; [intros [A|A]; try discriminate; split; reflexivity|]); (split; [intros A B; try discriminate; split; reflexivity|]); repeat split.
+Qed.
